@@ -102,8 +102,14 @@ func (f *frame) applyCall(c *ssa.CallCommon, v ssa.Value, pos token.Pos, deferre
 		f.recordCallThrow("dynamic", pos)
 		slot := f.slotContract(c)
 		var sargs []SV
+		if c.IsInvoke() {
+			sargs = append(sargs, f.get(c.Value))
+		}
 		for _, a := range c.Args {
 			sargs = append(sargs, f.get(a))
+		}
+		if slot != nil {
+			f.slotRequires(slot, sargs, pos)
 		}
 		oldHeap := f.curHeap.clone()
 		if f.wantUnwind() && !f.inDeferred {
@@ -231,6 +237,13 @@ func (f *frame) calleeBind(callee *ssa.Function, args []SV) map[string]SV {
 			bind[p.Name()] = args[i]
 		}
 	}
+	if fc := f.enc.E.CS.Funcs[funcKey(callee)]; fc != nil && fc.Implements != "" {
+		for i := range callee.Params {
+			if i < len(args) {
+				bind[fmt.Sprintf("arg%d", i)] = args[i]
+			}
+		}
+	}
 	return bind
 }
 
@@ -272,6 +285,7 @@ func (f *frame) contractCall(callee *ssa.Function, fc *FuncContract, args []SV, 
 	key := fc.Key
 	var addrArgs []*Loc
 	var addrTypes []types.Type
+	var arefs []string
 	for i, a := range args {
 		if a.loc != nil && a.loc.kind != locCell {
 			// interior address: the contract cannot name its target; the callee may write it
@@ -279,14 +293,25 @@ func (f *frame) contractCall(callee *ssa.Function, fc *FuncContract, args []SV, 
 			addrTypes = append(addrTypes, callee.Params[i].Type().Underlying().(*types.Pointer).Elem())
 			n, _ := e.havoc(base+"!aref", types.Typ[types.UnsafePointer])
 			args[i] = SV{t: a.t, term: n}
+			arefs = append(arefs, n)
+			if _, ok := addrTypes[len(addrTypes)-1].Underlying().(*types.Struct); ok {
+				// copy-in / copy-out: the callee sees the embedded struct as an object of its
+				// own at an unknown pre-existing reference, so its frame clauses apply to it
+				f.assume(fmt.Sprintf("(> %s 0)", n))
+				f.assume(fmt.Sprintf("(= %s %s)", f.loadStruct(n, addrTypes[len(addrTypes)-1], f.curHeap), f.loadLoc(a.loc, f.curHeap)))
+			}
 		} else if a.loc != nil {
 			args[i] = SV{t: a.t, term: a.loc.base}
 		}
 	}
 	defer func() {
 		for i, l := range addrArgs {
-			n, inv := e.havoc(base+"!addr", addrTypes[i])
 			f.wrote("write through address argument")
+			if _, ok := addrTypes[i].Underlying().(*types.Struct); ok {
+				f.storeLoc(l, f.loadStruct(arefs[i], addrTypes[i], f.curHeap), f.curHeap)
+				continue
+			}
+			n, inv := e.havoc(base+"!addr", addrTypes[i])
 			f.storeLoc(l, n, f.curHeap)
 			f.assume(inv)
 		}
@@ -360,6 +385,16 @@ func (f *frame) contractCall(callee *ssa.Function, fc *FuncContract, args []SV, 
 		nb[k] = v
 	}
 	bindResults(nb, callee, res)
+	// ghost results of the callee's own "calls ... as name" clauses are unknown here
+	for _, cs := range fc.Calls {
+		if cs.As == "" {
+			continue
+		}
+		if cf := e.E.L.Funcs[cs.Callee]; cf != nil && cf.Signature.Results().Len() == 1 {
+			g := f.resultHavoc(base+"!ghost", cf.Signature.Results().At(0).Type())
+			nb[cs.As] = g
+		}
+	}
 	for _, en := range fc.Ensures {
 		ctx := &evalCtx{f: f, pkg: pkg, bind: nb, heap: f.curHeap, oldHeap: oldHeap, oldBind: bind, what: "ensures of " + key}
 		f.assume(ctx.evalAssume(en.Text))
@@ -558,13 +593,31 @@ func (f *frame) builtin(b *ssa.Builtin, c *ssa.CallCommon, base string, resT typ
 		return r
 	case "copy":
 		dst := f.get(c.Args[0])
+		src := f.get(c.Args[1])
 		el := dst.t.Underlying().(*types.Slice).Elem()
 		key, sort := e.elemHeapKey(el)
 		cur := e.heapGet(f.curHeap, key, sort)
+		f.wrote("copy")
 		newArr := e.declare(e.fresh(key+"!arr"), "(Array (_ BitVec 64) "+e.R.sortOf(el)+")")
-		e.heapSet(f.curHeap, key, sort, fmt.Sprintf("(store %s (sl-ref %s) %s)", cur, dst.term, newArr))
 		r := f.resultHavoc(base, resT)
-		f.assume(fmt.Sprintf("(and (bvsle #x0000000000000000 %s) (bvsle %s (sl-len %s)))", r.term, r.term, dst.term))
+		// n = min(len(dst), len(src)); dst[0:n] = src[0:n], the rest of dst's array unchanged
+		var srcLen string
+		if e.R.sortOf(src.t) == "Str" {
+			srcLen = fmt.Sprintf("(slen %s)", src.term)
+		} else {
+			srcLen = fmt.Sprintf("(sl-len %s)", src.term)
+		}
+		f.assume(fmt.Sprintf("(= %s (ite (bvsle (sl-len %s) %s) (sl-len %s) %s))", r.term, dst.term, srcLen, dst.term, srcLen))
+		oldDst := fmt.Sprintf("(select %s (sl-ref %s))", cur, dst.term)
+		var srcElem string
+		if e.R.sortOf(src.t) == "Str" {
+			srcElem = fmt.Sprintf("(sbyte %s q!i)", src.term)
+		} else {
+			srcElem = fmt.Sprintf("(select (select %s (sl-ref %s)) (bvadd (sl-off %s) q!i))", cur, src.term, src.term)
+		}
+		f.assume(fmt.Sprintf("(forall ((q!i (_ BitVec 64))) (=> (and (bvsle #x0000000000000000 q!i) (bvslt q!i %s)) (= (select %s (bvadd (sl-off %s) q!i)) %s)))", r.term, newArr, dst.term, srcElem))
+		f.assume(fmt.Sprintf("(forall ((q!j (_ BitVec 64))) (=> (not (and (bvsle (sl-off %s) q!j) (bvslt q!j (bvadd (sl-off %s) %s)))) (= (select %s q!j) (select %s q!j))))", dst.term, dst.term, r.term, newArr, oldDst))
+		e.heapSet(f.curHeap, key, sort, fmt.Sprintf("(store %s (sl-ref %s) %s)", cur, dst.term, newArr))
 		return r
 	case "delete":
 		m := f.get(c.Args[0])
@@ -1023,6 +1076,13 @@ func (f *frame) excFromCall(label string, pos token.Pos, mk func()) {
 
 // slotContract finds the contract of a function-valued struct field that is being called.
 func (f *frame) slotContract(c *ssa.CallCommon) *FuncContract {
+	if c.IsInvoke() {
+		n, ok := c.Value.Type().(*types.Named)
+		if !ok || n.Obj().Pkg() == nil {
+			return nil
+		}
+		return f.enc.E.CS.Slots[n.Obj().Pkg().Name()+"."+n.Obj().Name()+"."+c.Method.Name()]
+	}
 	var owner types.Type
 	field := -1
 	switch v := c.Value.(type) {
@@ -1044,11 +1104,31 @@ func (f *frame) slotContract(c *ssa.CallCommon) *FuncContract {
 	return f.enc.E.CS.Slots[n.Obj().Pkg().Name()+"."+n.Obj().Name()+"."+st.Field(field).Name()]
 }
 
+// slotRequires: the caller of a slot establishes the slot's preconditions.
+func (f *frame) slotRequires(slot *FuncContract, args []SV, pos token.Pos) {
+	bind := map[string]SV{}
+	for i, a := range args {
+		bind[fmt.Sprintf("arg%d", i)] = a
+	}
+	for i, cl := range slot.Requires {
+		ctx := &evalCtx{f: f, pkg: f.enc.E.typesPkg(slot.Pkg), bind: bind, heap: f.curHeap, what: "requires of " + slot.Key}
+		text := f.enc.srcText(f.fn, pos, "call")
+		cndT, cndF := ctx.evalLocal(cl.Text)
+		f.oblige(fmt.Sprintf("call.pre.%d", i+1), text, implies(and(cndF...), cndT), cl.Text, pos)
+		f.assume(and(append(cndF, cndT)...))
+	}
+}
+
 func (f *frame) assumeSlot(slot *FuncContract, clauses []*Clause, args []SV, res SV, oldHeap Heap) {
 	bind := map[string]SV{}
 	for i, a := range args {
 		bind[fmt.Sprintf("arg%d", i)] = a
 	}
+	// frame clauses of the slot: preserved fields and fields written only at one argument
+	if sp := f.enc.E.L.SSA[slot.Pkg]; sp != nil {
+		f.restorePreserved(slot, sp.Pkg, oldHeap)
+	}
+	f.restoreOnlyAt(slot, bind, oldHeap)
 	nb := map[string]SV{}
 	for k, v := range bind {
 		nb[k] = v
@@ -1100,6 +1180,12 @@ func (f *frame) havocDynamic(w map[string]bool) {
 func (e *FnEnc) fieldKeys(entries []string, pkg *types.Package) [][2]string {
 	var out [][2]string
 	for _, m := range entries {
+		if ks, ok := e.modifiesSpecial(m, pkg); ok {
+			for _, k := range ks {
+				out = append(out, [2]string{k, e.R.heapDecl[k]})
+			}
+			continue
+		}
 		parts := strings.SplitN(m, ".", 2)
 		tn, ok := pkg.Scope().Lookup(parts[0]).(*types.TypeName)
 		if !ok || len(parts) != 2 {
